@@ -6,6 +6,21 @@ from core import Corr, Violation, run_driver
 from extract import pyexpr
 
 ID = "C10"
+#: functions the hand-written model transcribes: their control skeleton (extract/shape.py) is regenerated into
+#: Gen/C10.lean and compared with the literal in Properties/C10.lean (`modelled_functions_have_the_transcribed_shape`)
+SHAPES = [
+    ("shapeNodeFit", "mlinsights/mlmodel/decision_tree_logreg.py", "_DecisionTreeLogisticRegressionNode.fit"),
+    ("shapeNodePredictProba", "mlinsights/mlmodel/decision_tree_logreg.py", "_DecisionTreeLogisticRegressionNode.predict_proba"),
+    ("shapeNodeDecisionPath", "mlinsights/mlmodel/decision_tree_logreg.py", "_DecisionTreeLogisticRegressionNode.decision_path"),
+    ("shapeNodeEnumerateLeaves", "mlinsights/mlmodel/decision_tree_logreg.py", "_DecisionTreeLogisticRegressionNode.enumerate_leaves_index"),
+    ("shapeNodeDepth", "mlinsights/mlmodel/decision_tree_logreg.py", "_DecisionTreeLogisticRegressionNode.tree_depth_"),
+    ("shapeFit", "mlinsights/mlmodel/decision_tree_logreg.py", "DecisionTreeLogisticRegression.fit"),
+    ("shapeFitParallel", "mlinsights/mlmodel/decision_tree_logreg.py", "DecisionTreeLogisticRegression._fit_parallel"),
+    ("shapePredict", "mlinsights/mlmodel/decision_tree_logreg.py", "DecisionTreeLogisticRegression.predict"),
+    ("shapePredictProba", "mlinsights/mlmodel/decision_tree_logreg.py", "DecisionTreeLogisticRegression.predict_proba"),
+    ("shapeDecisionPath", "mlinsights/mlmodel/decision_tree_logreg.py", "DecisionTreeLogisticRegression.decision_path"),
+    ("shapeGetLeavesIndex", "mlinsights/mlmodel/decision_tree_logreg.py", "DecisionTreeLogisticRegression.get_leaves_index"),
+]
 SRC = "mlinsights/mlmodel/decision_tree_logreg.py"
 LEAN_TARGETS = ["MlVerif.Gen.C10", "MlVerif.Model.DTLR", "MlVerif.Lemmas.DTLR", "MlVerif.Properties.C10"]
 PROPERTY_FILE = "MlVerif/Properties/C10.lean"
@@ -786,6 +801,20 @@ def check_spec(spec):
         first = y == spec["labels"][0]
         y = numpy.array([lo if f else hi for f in first])
     model = build_model(spec)
+    if spec.get("used_before"):
+        # history: the SAME object was fitted on the mirrored data set (other tree, often the same number of nodes) and
+        # used, before the fit under test: everything below describes the tree of the LAST fit
+        try:
+            if spec["seed"] % 2:
+                model.fit(-X, y, sw)
+            else:
+                u = numpy.unique(y)
+                model.fit(X, numpy.where(y == u[0], u[-1], u[0]), sw)      # the two labels exchanged
+            model.get_leaves_index()
+            model.predict_proba(-Xq)
+            model.decision_path(-Xq)
+        except Exception:  # noqa: BLE001
+            pass
     try:
         r = model.fit(X, y, sw)
     except Exception as e:
@@ -933,6 +962,8 @@ def search(ctx, hints):
             sp["est"] = rng.choice(["tree1", "tree2", "tree_leaf"])
         if t % 5 == 0:
             sp["labels_obj"] = list(rng.choice(SEARCH_LABELS))
+        if t % 3 == 2:
+            sp["used_before"] = True
         if t % 4 == 1:
             sp["via_set_params"] = True
             if t % 8 == 1:
